@@ -277,6 +277,7 @@ impl Scenario for StartupScenario {
                 }
             }
         }
+        crate::verif::smast::sprinkle_split_replies(rng, &mut script);
         SmastCase {
             cfg,
             chunk: rng.below(5) as u8,
